@@ -727,6 +727,18 @@ class TrajectoryStore:
                     'All trajectories in a TrajectoryStore must have the same '
                     'data fields'
                 )
+        elif self.nc_linked and set(trajectory._fieldsets) != set(self._nc):
+            # Nothing cached to compare with (e.g. a fresh APPEND session):
+            # compare with the field sets of the files instead.
+            raise ValueError(
+                'All trajectories in a TrajectoryStore must have the same data fields'
+            )
+
+        # Required values must be present. Check this before changing any
+        # state so that a rejected trajectory leaves the store untouched.
+        for name, field in trajectory._data_dictionary.items():
+            if field.required and trajectory._data.get(name) is None:
+                raise ValueError(f'Data field "{name}" is None')
 
         # Decide on whether or not we can index the store, checking consistency
         # on this decision with each trajectory we add.
